@@ -49,6 +49,14 @@ def _lat_hex60(a, b, c, s):
     return np.array([[a, 0, 0], [a / 2, a * SQ3 / 2, 0], [0, 0, c]])
 
 
+def _lat_bcc(a, b, c, s):
+    return 0.5 * a * np.array([[-1., 1, 1], [1, -1, 1], [1, 1, -1]])
+
+
+def _lat_fcc(a, b, c, s):
+    return 0.5 * a * np.array([[0., 1, 1], [1, 0, 1], [1, 1, 0]])
+
+
 FAMILIES = [
     ("triclinic", _lat_tric, [[], ["Inversion"], ["TimeReversal"], ["Inversion", "TimeReversal"]], "any"),
     ("monoclinic", _lat_mono, [["C2z"], ["Mz"], ["C2z", "Inversion"], ["C2z", "TimeReversal"], ["TimeReversal*C2z"]],
@@ -62,6 +70,11 @@ FAMILIES = [
     ("hexagonal", _lat_hex, [["C3z"], ["C6z"], ["C3z", "C2x"], ["C6z", "C2x", "Inversion"],
                              ["C3z", "TimeReversal*C2x"], ["C6z", "Mz", "TimeReversal"]], "N1=N2"),
     ("hexagonal60", _lat_hex60, [["C3z"], ["C6z", "C2x"], ["C3z", "Mz"]], "N1=N2"),
+    # centred cubic lattices: the reduced-coordinate cells are not invariant under the group, so sub-cells of different
+    # parents are mapped onto each other (old evaluated points absorb new ones during refinement)
+    ("bcc", _lat_bcc, [["C4z", "C4x", "Inversion"], ["C4z", "Inversion"], ["C4z", "C4x"], ["C4z", "C2x", "Inversion", "TimeReversal"],
+                       ["C2z", "C2x", "Inversion"]], "cubic"),
+    ("fcc", _lat_fcc, [["C4z", "C4x", "Inversion"], ["C4z", "Inversion"], ["C2z", "C2x"], ["C4z", "C4x", "TimeReversal"]], "cubic"),
 ]
 
 
